@@ -32,5 +32,7 @@ def check(ctx):
         collector.rule_release_sites(ctx, c, "R6", what=("sweep_exists", "stale_exists"))
         collector.rule_report(ctx, c, "R6", what=("reached", "arg"))
     typerules.rule_not_clone(ctx, facts, "R7")
+    from .. import provrules
+    provrules.rule_config(ctx, facts, "R9")
     if c.need("R8"):
         collector.rule_cycle_exists(ctx, c, "R8")
